@@ -23,7 +23,9 @@ RULE = (
     "apply or configured on the cache), cache class, delete on/off, relink, update_meta, state on/off, "
     "0-2 further cache storages registered at drawn target keys (a file's own key or a directory key; each "
     "object lives only in the store its key resolves to), and cache objects removed (source unavailable; not "
-    "combined with further storages). old = DataIndex of build_entries(compute_hash=True) "
+    "combined with further storages; optionally a non-raising index.onerror collector; after the judged "
+    "round the objects are restored and compare/apply is retried with the SAME target index object, which "
+    "must then converge completely). old = DataIndex of build_entries(compute_hash=True) "
     "over the workspace, or (first compare only, drawn) index.build.build() without hashes. Oracle: os.walk of the workspace vs the flat model of T (files, bytes read "
     "through links, directories, x bits), a second compare(fresh old, freshly constructed target) with "
     "empty files_create/files_delete/dirs_create/dirs_delete, survival of prior files outside T when "
@@ -302,6 +304,7 @@ def cases(draw):
         "old_none": draw(st.booleans()),
         "old_hashes": draw(OLD_HASHES),
         "stores": [] if missing else draw(STORES),
+        "collect": draw(st.booleans()),
     }
 
 
@@ -591,6 +594,11 @@ def run_case(case, ctx):  # noqa: C901, PLR0912, PLR0915
             else:
                 classes.append("old=None")
             target = make_target(T, form, lazy, odb, extra)
+            load_errors = []
+            if case.get("collect"):
+                # a non-raising handler, as applications install to report all problems at once
+                target.onerror = lambda entry, exc: load_errors.append(entry.key)
+                classes.append("index-onerror-collector")
             reported = []
             diff = compare(old, target, delete=delete, relink=case["relink"])
             raised = None
@@ -608,30 +616,55 @@ def run_case(case, ctx):  # noqa: C901, PLR0912, PLR0915
                 classes.append("apply-raised-after-report")
             reported_paths = {a[1] for a in reported if len(a) > 1}
 
-            # ---- oracle: the workspace ------------------------------------------------------
+            def judge(tag, aff, cb):
+                """Workspace oracle + delete-off survival + second compare, ignoring what lies at/below
+                the keys in `aff` (entries whose source is unavailable in this round)."""
+                out = check_workspace(tag, ws, T, affected=aff, blocked=blocked, exact=delete)
+                if cb and out and not aff:
+                    out[0].msg += f"; error callback saw {[(a[1], repr(a[2])) for a in cb][:2]}"
+                if not delete:
+                    after_files, after_dirs, _ax = walk(ws)
+                    for e in prior.sorted_dirs():
+                        if e in T.files or e in T.dirs or under(e, aff) or e in after_dirs:
+                            continue
+                        if any(e[:i] in T.files for i in range(1, len(e))):
+                            continue
+                        out.append(Viol(f"{tag}delete-off:removed-outside-target",
+                                        f"prior directory {_rel(e)} is outside the target but was removed"))
+                    for k in prior.sorted_files():
+                        if k in T.files or k in T.dirs or under(k, aff):
+                            continue
+                        if any(k[:i] in T.files for i in range(1, len(k))):
+                            continue  # lies below a target file: a conflict, not "outside the target"
+                        if after_files.get(k) != prior.files[k]:
+                            out.append(Viol(f"{tag}delete-off:removed-outside-target",
+                                            f"prior file {_rel(k)} is outside the target but was "
+                                            f"{'removed' if k not in after_files else 'altered'}"))
+                # second compare: fresh old index with hashes, freshly constructed target
+                old2 = build_old(ws, state, root_entry=() in lazy)
+                target2 = make_target(T, form, lazy, odb, extra)
+                diff2 = compare(old2, target2, delete=delete)
+                ignore_dirs = set()
+                if form == "implicit":
+                    ignore_dirs = {e for e in T.dirs if e not in {k for k in target2.iterkeys()}}
+                for name in ("files_create", "files_delete", "dirs_create", "dirs_delete"):
+                    left = []
+                    for entry in getattr(diff2, name):
+                        k = tuple(entry.key)
+                        if under(k, aff) or under(k, blocked):
+                            continue
+                        if name == "dirs_delete" and k in ignore_dirs:
+                            continue
+                        left.append(k)
+                    if left:
+                        out.append(Viol(f"{tag}second-compare:{name}",
+                                        f"after apply a second compare still has {name}="
+                                        f"{[_rel(k) for k in sorted(left)][:4]}"))
+                return out
+
+            # ---- oracle: first round --------------------------------------------------------
             if raised is None:
-                viols += check_workspace("", ws, T, affected=affected, blocked=blocked, exact=delete)
-            if reported and viols and not affected:
-                viols[0].msg += f"; error callback saw {[(a[1], repr(a[2])) for a in reported][:2]}"
-            if not delete and raised is None:
-                after_files, after_dirs, _ax = walk(ws)
-                for e in prior.sorted_dirs():
-                    if e in T.files or e in T.dirs or under(e, affected) or e in after_dirs:
-                        continue
-                    if any(e[:i] in T.files for i in range(1, len(e))):
-                        continue
-                    viols.append(Viol("delete-off:removed-outside-target",
-                                      f"prior directory {_rel(e)} is outside the target but was removed"))
-                for k in prior.sorted_files():
-                    if k in T.files or k in T.dirs or under(k, affected):
-                        continue
-                    if any(k[:i] in T.files for i in range(1, len(k))):
-                        continue  # lies below a target file: a conflict, not "outside the target"
-                    if after_files.get(k) != prior.files[k]:
-                        viols.append(Viol("delete-off:removed-outside-target",
-                                          f"prior file {_rel(k)} is outside the target but was "
-                                          f"{'removed' if k not in after_files else 'altered'}"))
-            if raised is None:
+                viols += judge("", affected, reported)
                 now_files, now_dirs, _nx = walk(ws)
                 for n in failed_dirs:
                     # tests/index/test_checkout.py::test_checkout_broken_dir: a directory that failed to
@@ -646,26 +679,20 @@ def run_case(case, ctx):  # noqa: C901, PLR0912, PLR0915
                                   f"{os.path.relpath(p, ws)}: its source is not in the cache but the "
                                   f"error callback was not called for it"))
 
-            # ---- oracle: second compare ------------------------------------------------------
-            old2 = build_old(ws, state, root_entry=() in lazy)
-            target2 = make_target(T, form, lazy, odb, extra)
-            diff2 = compare(old2, target2, delete=delete)
-            ignore_dirs = set()
-            if form == "implicit":
-                ignore_dirs = {e for e in T.dirs if e not in {k for k in target2.iterkeys()}}
-            for name in ("files_create", "files_delete", "dirs_create", "dirs_delete"):
-                left = []
-                for entry in getattr(diff2, name) if raised is None else ():
-                    k = tuple(entry.key)
-                    if under(k, affected) or under(k, blocked):
-                        continue
-                    if name == "dirs_delete" and k in ignore_dirs:
-                        continue
-                    left.append(k)
-                if left:
-                    viols.append(Viol(f"second-compare:{name}",
-                                      f"after apply a second compare still has {name}="
-                                      f"{[_rel(k) for k in sorted(left)][:4]}"))
+            # ---- history: the sources come back, the checkout is retried with the SAME target -----
+            # (not after update_meta=True: that apply re-points the index it was given at the workspace)
+            if gone and not case["update_meta"] and not viols:
+                for oid in sorted(gone):
+                    put_object(odb, case["store"], oid, needed[oid])
+                reported2 = []
+                diff3 = compare(build_old(ws, state, root_entry=() in lazy), target, delete=delete,
+                                relink=case["relink"])
+                apply(diff3, ws, fs, update_meta=False, state=state, links=links_arg(),
+                      onerror=lambda *a: reported2.append(a))
+                viols += judge("retry:", [], reported2)
+                classes.append("retry-after-restore")
+                if failed_dirs:
+                    classes.append("retry-after-restore:failed-dir")
         finally:
             if state is not None:
                 state.close()
